@@ -1,6 +1,7 @@
 use crate::util::Args;
 pub mod c01;
 pub mod c08;
+pub mod c09;
 pub mod c10;
 pub mod c19;
 pub mod smoke;
@@ -11,6 +12,7 @@ pub fn dispatch(a: &Args) {
 		"c19" => c19::run(a),
 		"c01" => c01::run(a),
 		"c08" => c08::run(a),
+		"c09" => c09::run(a),
 		"c10" => c10::run(a),
 		p => {
 			eprintln!("unknown property {}", p);
